@@ -1492,4 +1492,332 @@ theorem winv_rep_wf (w : Writer) (fs : FS) (al : List AFile) (B N : Nat) (h : WI
     have := h.aok.live f hf
     rw [this.1, this.2]; simp
 
+
+/-! ### the line-limited read -/
+
+/-- `linesLoop` on parsed items -/
+def absLines (n prev : Nat) : List MItem → Nat → List MItem → ReadRes
+  | [], _, acc => ⟨acc.reverse, decide (prev + acc.length < n)⟩
+  | it :: rest, lastSec, acc =>
+    if prev + acc.length ≥ n ∧ it.ts / 1000 ≠ lastSec then ⟨acc.reverse, false⟩ else absLines n prev rest (it.ts / 1000) (it :: acc)
+
+theorem linesLoop_good (n prev : Nat) (its : List MItem) (lastSec : Nat) (acc : List MItem) (hg : ∀ it ∈ its, GoodItem it) :
+    linesLoop n prev (its.map lineOf) lastSec acc = absLines n prev (its.map stored) lastSec acc := by
+  induction its generalizing lastSec acc with
+  | nil => simp [linesLoop, absLines]
+  | cons it rest ih =>
+    have hgi := hg it (by simp)
+    have hp : parseLine (dropAllCR (lineOf it)) = some (stored it) := by
+      rw [dropAllCR_id _ (lineOf_no_cr it hgi), parseLine_lineOf it hgi]
+    simp only [List.map_cons, linesLoop, absLines, hp]
+    by_cases hc : prev + acc.length ≥ n ∧ (stored it).ts / 1000 ≠ lastSec
+    · rw [if_pos hc, if_pos hc]
+    · rw [if_neg hc, if_neg hc]; exact ih _ _ (fun x hx => hg x (by simp [hx]))
+
+theorem exists_getLast? {α} (l : List α) (h : l ≠ []) : ∃ x, l.getLast? = some x := by
+  cases hl : l.getLast? with
+  | none => exact absurd (List.getLast?_eq_none_iff.mp hl) h
+  | some x => exact ⟨x, rfl⟩
+
+/-- beyond the first `n` items everything lies in the second of the `n`-th -/
+def Whole (n : Nat) (P : List MItem) : Prop := ∀ it ∈ P.drop n, ∀ l, (P.take n).getLast? = some l → secOf it = secOf l
+
+theorem absLines_spec (n prev : Nat) (hn : 1 ≤ n) (its : List MItem) (P0 : List MItem) (hprev : P0.length = prev) (lastSec : Nat) (acc : List MItem)
+    (hlast : ∀ l, (P0 ++ acc.reverse).getLast? = some l → lastSec = secOf l) (hw : Whole n (P0 ++ acc.reverse)) :
+    ∃ Q, (absLines n prev its lastSec acc).items = acc.reverse ++ Q ∧ Q <+: its ∧ Whole n (P0 ++ acc.reverse ++ Q) ∧
+      ((absLines n prev its lastSec acc).cont = true → Q = its ∧ (P0 ++ acc.reverse ++ Q).length < n) ∧
+      ((absLines n prev its lastSec acc).cont = false → (P0 ++ acc.reverse ++ Q).length ≥ n) := by
+  have hlen : ∀ a : List MItem, (P0 ++ a.reverse).length = prev + a.length := by intro a; simp [hprev]
+  induction its generalizing lastSec acc with
+  | nil =>
+    refine ⟨[], by simp [absLines], List.prefix_refl _, by simpa using hw, ?_, ?_⟩
+    · intro h; simp only [absLines, decide_eq_true_eq] at h; simp [hprev]; omega
+    · intro h; simp only [absLines, decide_eq_false_iff_not] at h; simp [hprev]; omega
+  | cons it rest ih =>
+    simp only [absLines]
+    change ∃ Q, (if prev + acc.length ≥ n ∧ secOf it ≠ lastSec then (⟨acc.reverse, false⟩ : ReadRes) else absLines n prev rest (secOf it) (it :: acc)).items = _ ∧ _ ∧ _ ∧
+      ((if prev + acc.length ≥ n ∧ secOf it ≠ lastSec then (⟨acc.reverse, false⟩ : ReadRes) else absLines n prev rest (secOf it) (it :: acc)).cont = true → _) ∧
+      ((if prev + acc.length ≥ n ∧ secOf it ≠ lastSec then (⟨acc.reverse, false⟩ : ReadRes) else absLines n prev rest (secOf it) (it :: acc)).cont = false → _)
+    by_cases hstop : prev + acc.length ≥ n ∧ secOf it ≠ lastSec
+    · rw [if_pos hstop]
+      refine ⟨[], by simp, List.nil_prefix, by simpa using hw, by simp, ?_⟩
+      intro _; simp [hprev]; omega
+    · rw [if_neg hstop]
+      have hw' : Whole n (P0 ++ (it :: acc).reverse) := by
+        intro x hx l hl
+        simp only [List.reverse_cons, ← List.append_assoc] at hx hl
+        by_cases hc : (P0 ++ acc.reverse).length < n
+        · -- the new item is among the first n
+          have : ((P0 ++ acc.reverse) ++ [it]).drop n = [] := by
+            apply List.drop_eq_nil_of_le; rw [List.length_append, List.length_singleton]; omega
+          rw [this] at hx; simp at hx
+        · have hge : n ≤ (P0 ++ acc.reverse).length := by omega
+          rw [List.take_append_of_le_length hge] at hl
+          rw [List.drop_append_of_le_length hge] at hx
+          rcases List.mem_append.mp hx with h1 | h1
+          · exact hw x h1 l hl
+          · simp only [List.mem_singleton] at h1; subst h1
+            -- taken although the count is reached: same second as the previous item
+            have hcnt : prev + acc.length ≥ n := by rw [hlen acc] at hge; exact hge
+            have hsame : secOf x = lastSec := by
+              by_cases e : secOf x = lastSec
+              · exact e
+              · exact absurd ⟨hcnt, e⟩ hstop
+            have hne : P0 ++ acc.reverse ≠ [] := by intro e; rw [e] at hge; simp at hge; omega
+            obtain ⟨pl, hpl⟩ := exists_getLast? _ hne
+            rw [hsame, hlast pl hpl]
+            -- the previous item is the n-th item or lies beyond it
+            by_cases hc2 : (P0 ++ acc.reverse).length = n
+            · rw [List.take_of_length_le (by omega)] at hl
+              rw [hpl] at hl; simp at hl; rw [hl]
+            · have : pl ∈ (P0 ++ acc.reverse).drop n := by
+                have hlt : n < (P0 ++ acc.reverse).length := by omega
+                have hne2 : (P0 ++ acc.reverse).drop n ≠ [] := by
+                  intro e; have := congrArg List.length e; rw [List.length_drop, List.length_nil] at this; omega
+                obtain ⟨x, hx⟩ := exists_getLast? _ hne2
+                have hsplit : (P0 ++ acc.reverse).getLast? = ((P0 ++ acc.reverse).take n ++ (P0 ++ acc.reverse).drop n).getLast? := by
+                  rw [List.take_append_drop]
+                rw [hsplit, List.getLast?_append, hx] at hpl
+                simp at hpl
+                rw [← hpl]; exact List.mem_of_getLast? hx
+              exact hw pl this l hl
+      obtain ⟨Q, h1, h2, h3, h4, h5⟩ := ih (secOf it) (it :: acc)
+        (by intro l hl; simp only [List.reverse_cons, ← List.append_assoc, List.getLast?_append, List.getLast?_singleton] at hl; simp at hl; rw [← hl])
+        hw'
+      refine ⟨it :: Q, ?_, ?_, ?_, ?_, ?_⟩
+      · rw [h1]; simp
+      · exact List.prefix_cons_inj it |>.mpr h2
+      · simpa [List.append_assoc] using h3
+      · intro hc; obtain ⟨e, hl⟩ := h4 hc; exact ⟨by rw [e], by simpa [List.append_assoc] using hl⟩
+      · intro hc; have := h5 hc; simpa [List.append_assoc] using this
+
+
+theorem linesOneFile_live (gs pre post : List Group) (hsplit : gs = pre ++ post) (n lastSec prev : Nat)
+    (hg : ∀ it ∈ groupsItems post, GoodItem it) :
+    linesOneFile (groupsBytes gs) (groupsBytes pre).length n lastSec prev = absLines n prev ((groupsItems post).map stored) lastSec [] := by
+  unfold linesOneFile
+  rw [hsplit, groupsBytes_append, List.drop_left, groupsBytes_eq_items post]
+  have h1 := splitLines_items (groupsItems post) hg []
+  simp only [List.append_nil, splitLines] at h1
+  rw [h1, linesLoop_good n prev (groupsItems post) lastSec [] hg]
+
+theorem latestSecond_spec (P : List MItem) : ∀ l, P.getLast? = some l → latestSecond P = secOf l := by
+  intro l hl; simp [latestSecond, hl, secOf]
+
+theorem whole_nil (n : Nat) : Whole n [] := by intro it hit; simp at hit
+
+theorem linesRest_spec (fs : FS) (n : Nat) (hn : 1 ≤ n) (B : List AFile) (hlogs : ∀ f ∈ B, fs.logs.get? f.id = some f.log)
+    (hlive : ∀ f ∈ B, f.tail = []) (hgood : ∀ f ∈ B, ∀ it ∈ f.items, GoodItem it) (P : List MItem) (hw : Whole n P) :
+    ∃ Q, linesRest fs n (B.map (·.id)) P = some (P ++ Q) ∧ Q <+: (B.flatMap AFile.items).map stored ∧ Whole n (P ++ Q) ∧
+      ((P ++ Q).length ≥ n ∨ Q = (B.flatMap AFile.items).map stored) := by
+  induction B generalizing P with
+  | nil => exact ⟨[], by simp [linesRest], by simp, by simpa using hw, Or.inr (by simp)⟩
+  | cons f rest ih =>
+    simp only [List.map_cons, linesRest]
+    by_cases hfull : P.length ≥ n
+    · rw [if_pos hfull]
+      exact ⟨[], by simp, List.nil_prefix, by simpa using hw, Or.inl (by simpa using hfull)⟩
+    · rw [if_neg hfull]
+      simp only [hlogs f (by simp)]
+      have hlog : f.log = groupsBytes f.groups := by simp [AFile.log, hlive f (by simp)]
+      have hr := linesOneFile_live f.groups [] f.groups rfl n (latestSecond P) P.length (hgood f (by simp))
+      have h0 : (groupsBytes []).length = 0 := rfl
+      rw [h0] at hr
+      rw [hlog, hr]
+      obtain ⟨Q1, q1, q2, q3, q4, q5⟩ := absLines_spec n P.length hn ((groupsItems f.groups).map stored) P rfl (latestSecond P) []
+        (by simpa using latestSecond_spec P) (by simpa using hw)
+      simp only [List.reverse_nil, List.nil_append, List.append_nil] at q1 q3 q4 q5
+      by_cases hc : (absLines n P.length ((groupsItems f.groups).map stored) (latestSecond P) []).cont = true
+      · rw [if_pos hc, q1]
+        obtain ⟨e, _⟩ := q4 hc
+        obtain ⟨Q2, r1, r2, r3, r4⟩ := ih (fun x hx => hlogs x (by simp [hx])) (fun x hx => hlive x (by simp [hx]))
+          (fun x hx => hgood x (by simp [hx])) (P ++ Q1) q3
+        refine ⟨Q1 ++ Q2, by rw [r1, List.append_assoc], ?_, by simpa [List.append_assoc] using r3, ?_⟩
+        · rw [e]; simp only [List.flatMap_cons, List.map_append, AFile.items]
+          exact (List.prefix_append_right_inj _).mpr r2
+        · rcases r4 with h | h
+          · left; simpa [List.append_assoc] using h
+          · right; rw [e, h]; simp [AFile.items]
+      · rw [if_neg hc, q1]
+        have hc' : (absLines n P.length ((groupsItems f.groups).map stored) (latestSecond P) []).cont = false := by simpa using hc
+        refine ⟨Q1, rfl, ?_, q3, Or.inl (q5 hc')⟩
+        simp only [List.flatMap_cons, List.map_append, AFile.items]
+        exact List.IsPrefix.trans q2 (List.prefix_append _ _)
+
+
+theorem pairwise_le_last (l : List MItem) (hp : l.Pairwise (fun a b => secOf a ≤ secOf b)) (x last : MItem)
+    (hx : x ∈ l) (hl : l.getLast? = some last) : secOf x ≤ secOf last := by
+  induction l with
+  | nil => simp at hx
+  | cons a r ih =>
+    have hp' := List.pairwise_cons.mp hp
+    cases r with
+    | nil =>
+      simp only [List.getLast?_singleton, Option.some.injEq] at hl
+      simp only [List.mem_singleton] at hx
+      rw [hx, hl]; exact Nat.le_refl _
+    | cons b t =>
+      have hl' : (b :: t).getLast? = some last := by simpa [List.getLast?_cons_cons] using hl
+      rcases List.mem_cons.mp hx with e | e
+      · rw [e]; exact hp'.1 last (List.mem_of_getLast? hl')
+      · exact ih hp'.2 e hl'
+
+theorem fromSec_assemble (early frm : List MItem) (b : Nat) (hearly : ∀ it ∈ early, secOf it < b / 1000) (hlo : ∀ it ∈ frm, b / 1000 ≤ secOf it) :
+    fromSec ((early ++ frm).map stored) b = frm.map stored := by
+  unfold fromSec
+  rw [List.map_append, List.filter_append]
+  have h1 : (early.map stored).filter (fun it => decide (b / 1000 ≤ it.ts / 1000)) = [] := by
+    rw [List.filter_eq_nil_iff]
+    intro x hx
+    obtain ⟨it, hit, rfl⟩ := List.mem_map.mp hx
+    have := hearly it hit
+    simp only [secOf] at this
+    simp only [stored_ts]
+    intro h
+    have := of_decide_eq_true h
+    omega
+  have h2 : (frm.map stored).filter (fun it => decide (b / 1000 ≤ it.ts / 1000)) = frm.map stored := by
+    rw [List.filter_eq_self]
+    intro x hx
+    obtain ⟨it, hit, rfl⟩ := List.mem_map.mp hx
+    have := hlo it hit
+    simp only [secOf] at this
+    simp only [stored_ts]
+    exact decide_eq_true this
+  rw [h1, h2, List.nil_append]
+
+/-- what the line-limited read returns meets the Spec -/
+theorem specLinesOk_of (held l R : List MItem) (b n : Nat) (hn : 1 ≤ n) (hfrom : fromSec held b = l)
+    (hsorted : l.Pairwise (fun a b => secOf a ≤ secOf b)) (hpre : R <+: l) (hlen : R.length ≥ n ∨ R = l) (hw : Whole n R) :
+    specLinesOk held b n R = true := by
+  unfold specLinesOk
+  simp only [hfrom]
+  have h1 : (R == l.take R.length) = true := by
+    rw [beq_iff_eq]; exact List.prefix_iff_eq_take.mp hpre
+  have h2 : decide (R.length ≥ min n l.length) = true := by
+    rw [decide_eq_true_eq]
+    rcases hlen with h | h
+    · exact Nat.le_trans (Nat.min_le_left _ _) h
+    · rw [h]; exact Nat.min_le_right _ _
+  rw [h1, h2, Bool.true_and, Bool.true_and]
+  obtain ⟨k, rfl⟩ : ∃ k, n = k + 1 := ⟨n - 1, by omega⟩
+  simp only [Nat.add_sub_cancel]
+  cases hk : l[k]? with
+  | none => rfl
+  | some last =>
+    simp only [List.all_eq_true, decide_eq_true_eq]
+    intro it hit
+    have hklt : k < l.length := by
+      by_cases h : k < l.length
+      · exact h
+      · rw [List.getElem?_eq_none (by omega)] at hk; simp at hk
+    have hRlen : R.length ≥ k + 1 := by
+      rcases hlen with h | h
+      · exact h
+      · rw [h]; omega
+    -- the (k+1)-th item of R is `last`
+    have hRtake : R.take (k + 1) = l.take (k + 1) := by
+      have := List.prefix_iff_eq_take.mp hpre
+      rw [this, List.take_take, Nat.min_eq_left hRlen]
+    have hlastR : (R.take (k + 1)).getLast? = some last := by
+      rw [hRtake, List.getLast?_take]
+      simp [hk]
+    have hsortedR : (R.take (k + 1)).Pairwise (fun a b => secOf a ≤ secOf b) := by
+      rw [hRtake]; exact List.Pairwise.sublist (List.take_sublist _ _) hsorted
+    have hmem : it ∈ R.take (k + 1) ∨ it ∈ R.drop (k + 1) := by
+      rw [← List.mem_append, List.take_append_drop]; exact hit
+    rcases hmem with h | h
+    · exact pairwise_le_last _ hsortedR it last h hlastR
+    · have := hw it h last hlastR
+      simp only [secOf] at this
+      omega
+
+
+/-- where a search for begin time `b` starts in a well-formed directory: nowhere (everything is earlier), or at a group of a
+file such that everything before is earlier and everything from there on is sorted and not earlier -/
+theorem start_decomp (fs : FS) (al : List AFile) (hrep : Rep fs al) (hwf : WF al) (b : Nat) :
+    (findStart fs (b / 1000) (al.map (·.id)) = none ∧ ∀ it ∈ al.flatMap AFile.items, secOf it < b / 1000) ∨
+    ∃ A f B pre g post,
+      al = A ++ f :: B ∧ f.groups = pre ++ g :: post ∧
+      findStart fs (b / 1000) (al.map (·.id)) = some (f.id :: B.map (·.id), g.1, (groupsBytes pre).length) ∧
+      al.flatMap AFile.items = (A.flatMap AFile.items ++ groupsItems pre) ++ (groupsItems (g :: post) ++ B.flatMap AFile.items) ∧
+      (∀ it ∈ A.flatMap AFile.items ++ groupsItems pre, secOf it < b / 1000) ∧
+      (∀ it ∈ groupsItems (g :: post) ++ B.flatMap AFile.items, b / 1000 ≤ secOf it) ∧
+      (groupsItems (g :: post) ++ B.flatMap AFile.items).Pairwise (fun x y => secOf x ≤ secOf y) := by
+  rw [findStart_spec fs al (b / 1000) (fun f hf => idx_lookup fs f _ (hrep.idxs f hf) (hwf.small f hf) (hwf.tails f hf).2)]
+  cases hd : al.dropWhile (fun f => (firstOffset f.groups (b / 1000)).isNone) with
+  | nil =>
+    left
+    refine ⟨rfl, ?_⟩
+    intro it hit
+    obtain ⟨f, hf, hif⟩ := List.mem_flatMap.mp hit
+    obtain ⟨g, hg, hig⟩ := List.mem_flatMap.mp hif
+    have hnone := dropWhile_nil_all _ _ hd f hf
+    rw [hwf.secs f hf g hg it hig]
+    exact firstOffset_none f.groups _ (by simpa using hnone) g hg
+  | cons f B =>
+    right
+    have hal : al = al.takeWhile (fun f => (firstOffset f.groups (b / 1000)).isNone) ++ f :: B := by
+      rw [← hd, List.takeWhile_append_dropWhile]
+    generalize hA : al.takeWhile (fun f => (firstOffset f.groups (b / 1000)).isNone) = A at hal
+    have hAearly : ∀ x ∈ A, (firstOffset x.groups (b / 1000)) = none := by
+      intro x hx
+      have := takeWhile_all_mem _ _ x (hA ▸ hx)
+      simpa using this
+    have hfsome := dropWhile_head_not _ _ _ _ hd
+    simp only [Option.isNone_eq_false_iff, Option.isSome_iff_exists] at hfsome
+    obtain ⟨⟨sec, off⟩, hfo⟩ := hfsome
+    obtain ⟨pre, g, post, hgs, hpre, hg, hsec, hoff⟩ := firstOffset_some f.groups _ sec off hfo
+    have hfmem : f ∈ al := by rw [hal]; simp
+    have hBmem : ∀ x ∈ B, x ∈ al := by intro x hx; rw [hal]; simp [hx]
+    have hAmem : ∀ x ∈ A, x ∈ al := by intro x hx; rw [hal]; simp [hx]
+    have hallitems : al.flatMap AFile.items = (A.flatMap AFile.items ++ groupsItems pre) ++ (groupsItems (g :: post) ++ B.flatMap AFile.items) := by
+      rw [hal]
+      simp only [List.flatMap_append, List.flatMap_cons, AFile.items, hgs, groupsItems, List.append_assoc]
+    have hearly : ∀ it ∈ A.flatMap AFile.items ++ groupsItems pre, secOf it < b / 1000 := by
+      intro it hit
+      rcases List.mem_append.mp hit with h | h
+      · obtain ⟨x, hx, hix⟩ := List.mem_flatMap.mp h
+        obtain ⟨g', hg', hig⟩ := List.mem_flatMap.mp hix
+        rw [hwf.secs x (hAmem x hx) g' hg' it hig]
+        exact firstOffset_none x.groups _ (hAearly x hx) g' hg'
+      · obtain ⟨g', hg', hig⟩ := List.mem_flatMap.mp h
+        rw [hwf.secs f hfmem g' (by rw [hgs]; simp [hg']) it hig]
+        exact hpre g' hg'
+    have hsortedAll := hwf.sorted
+    rw [hal] at hsortedAll
+    simp only [List.flatMap_append, List.flatMap_cons, hgs, List.map_append, List.map_cons] at hsortedAll
+    have hsub : ((g :: post) ++ B.flatMap (·.groups)).map (·.1) = g.1 :: (post.map (·.1) ++ B.flatMap (fun f => f.groups.map (·.1))) := by
+      simp [List.map_flatMap]
+    have hsortedFrom : (((g :: post) ++ B.flatMap (·.groups)).map (·.1)).Pairwise (· ≤ ·) := by
+      rw [hsub]
+      have h1 := (List.pairwise_append.mp hsortedAll).2.1
+      have h4 : ((pre.map (·.1) ++ g.1 :: post.map (·.1)) ++ B.flatMap (fun f => f.groups.map (·.1))).Pairwise (· ≤ ·) := h1
+      rw [List.append_assoc] at h4
+      exact (List.pairwise_append.mp h4).2.1
+    have hsecsFrom : ∀ g' ∈ (g :: post) ++ B.flatMap (·.groups), ∀ it ∈ g'.2, secOf it = g'.1 := by
+      intro g' hg' it hit
+      rcases List.mem_append.mp hg' with h | h
+      · exact hwf.secs f hfmem g' (by rw [hgs]; simp [List.mem_cons.mp h]) it hit
+      · obtain ⟨x, hx, hgx⟩ := List.mem_flatMap.mp h
+        exact hwf.secs x (hBmem x hx) g' hgx it hit
+    have hfromEq : groupsItems (g :: post) ++ B.flatMap AFile.items = groupsItems ((g :: post) ++ B.flatMap (·.groups)) := by
+      rw [items_flatMap_groups]; simp [groupsItems]
+    have hsortedItems := groupsItems_sorted _ hsecsFrom hsortedFrom
+    have hlo : ∀ it ∈ groupsItems ((g :: post) ++ B.flatMap (·.groups)), b / 1000 ≤ secOf it := by
+      intro it hit
+      obtain ⟨g', hg', hig⟩ := List.mem_flatMap.mp hit
+      rw [hsecsFrom g' hg' it hig]
+      rw [hsub] at hsortedFrom
+      rcases List.mem_append.mp hg' with h | h
+      · rcases List.mem_cons.mp h with e | e
+        · rw [e]; exact hg
+        · have := (List.pairwise_cons.mp hsortedFrom).1 g'.1 (List.mem_append.mpr (Or.inl (List.mem_map.mpr ⟨g', e, rfl⟩)))
+          omega
+      · obtain ⟨x, hx, hgx⟩ := List.mem_flatMap.mp h
+        have := (List.pairwise_cons.mp hsortedFrom).1 g'.1 (List.mem_append.mpr (Or.inr (List.mem_flatMap.mpr ⟨x, hx, List.mem_map.mpr ⟨g', hgx, rfl⟩⟩)))
+        omega
+    refine ⟨A, f, B, pre, g, post, hal, hgs, ?_, hallitems, hearly, by rw [hfromEq]; exact hlo, by rw [hfromEq]; exact hsortedItems⟩
+    simp only [hfo, Option.map_some, hsec, hoff]
+
 end Sentinel.MLog
